@@ -326,6 +326,13 @@ def _moved_sources(model, missing):
 def inv_c19(model, real, tier):
     v = list(real.update_defects)
     evals = 1
+    # an update that FAILS (git cannot be started) must leave the store exactly as it was: tried first,
+    # so that everything below is evaluated on the state after the failed attempts
+    for extra in ([], ["-p"]):
+        fres = real.r.mr("checkpoint", "update", "--git-path", "/nonexistent/git", *extra)
+        evals += 1
+        if fres.code == 0:
+            v.append(("failing-update-succeeded", "checkpoint update with an unusable git exited 0: %s" % fres.out[:150]))
     show = real.r.mr("checkpoint", "show")
     sdoc = show.json()
     if real.last_update is None:
